@@ -20,16 +20,19 @@ def _gen_sum(pid, name, model, key):
 def c12(pid, tier, seed):
     q = tier == "quick"
     al = {"<", "^", ">"}
-    gens = [("msg", "MC_Field", dict(MaxLen=5 if q else 6, Alphabet=A4, Ws=set(range(0, 8 if q else 10)), Aligns=al, Wide=False, TWs={1}, Kinds={"msg"}, BarWs=set(), NarrowTWs=set(), Wide2=False), "bfs"),
-            ("prefix", "MC_Field", dict(MaxLen=3 if q else 4, Alphabet=A4, Ws=set(range(0, 8)), Aligns=al, Wide=False, TWs={1}, Kinds={"prefix"}, BarWs=set(), NarrowTWs=set(), Wide2=False), "bfs"),
-            ("wide", "MC_Field", dict(MaxLen=4 if q else 5, Alphabet=A4, Ws=set(), Aligns=al, Wide=True, TWs={1, 2, 3, 5, 8} if q else set(range(1, 11)), Kinds={"msg"}, BarWs=set(), NarrowTWs=set(), Wide2=False), "bfs"),
+    gens = [("msg", "MC_Field", dict(MaxLen=5 if q else 6, Alphabet=A4, Ws=set(range(0, 8 if q else 10)), Aligns=al, Wide=False, TWs={1}, Kinds={"msg"}, BarWs=set(), NarrowTWs=set(), Sty="", Wide2=False), "bfs"),
+            ("prefix", "MC_Field", dict(MaxLen=3 if q else 4, Alphabet=A4, Ws=set(range(0, 8)), Aligns=al, Wide=False, TWs={1}, Kinds={"prefix"}, BarWs=set(), NarrowTWs=set(), Sty="", Wide2=False), "bfs"),
+            ("wide", "MC_Field", dict(MaxLen=4 if q else 5, Alphabet=A4, Ws=set(), Aligns=al, Wide=True, TWs={1, 2, 3, 5, 8} if q else set(range(1, 11)), Kinds={"msg"}, BarWs=set(), NarrowTWs=set(), Sty="", Wide2=False), "bfs"),
             # the text in front of the wide element is another field ({prefix:P}, fitting or overflowing); a bar inside a field of W columns (2-column clusters, odd W)
             ("wide_after_field", "MC_Field", dict(MaxLen=3 if q else 4, Alphabet=A4, Ws=set(), Aligns=al, Wide=False, TWs={3, 5, 6, 8, 12} if q else set(range(1, 15)), Kinds={"msg"},
-                                                  BarWs=set(range(0, 12)) if q else set(range(0, 30)), NarrowTWs=set(), Wide2=True), "bfs"),
+                                                  BarWs=set(range(0, 12)) if q else set(range(0, 30)), NarrowTWs=set(), Sty="", Wide2=True), "bfs"),
             # a field of W columns on a terminal narrower than W (the line wraps; the field keeps its width and its cut)
             ("narrow_terminal", "MC_Field", dict(MaxLen=3 if q else 4, Alphabet=A4, Ws={0, 2, 5, 8} if q else set(range(0, 10)), Aligns=al, Wide=False, TWs={1}, Kinds={"msg"},
-                                                 BarWs=set(), NarrowTWs={3} if q else {1, 3, 6}, Wide2=False), "bfs"),
-            ("large", "MC_Field", dict(MaxLen=1 if q else 2, Alphabet=A4, Ws={255, 256, 65535}, Aligns=al | {""}, Wide=False, TWs={1}, Kinds={"msg", "prefix"}, BarWs=set(), NarrowTWs=set(), Wide2=False), "bfs")]
+                                                 BarWs=set(), NarrowTWs={3} if q else {1, 3, 6}, Sty="", Wide2=False), "bfs"),
+            # a field with a style (colours are off: nothing but the text is painted), empty content included
+            ("styled", "MC_Field", dict(MaxLen=2 if q else 3, Alphabet=A4, Ws=set(range(0, 6)), Aligns=al, Wide=False, TWs={1}, Kinds={"msg", "prefix"},
+                                        BarWs=set(), NarrowTWs=set(), Sty=".red", Wide2=False), "bfs"),
+            ("large", "MC_Field", dict(MaxLen=1 if q else 2, Alphabet=A4, Ws={255, 256, 65535}, Aligns=al | {""}, Wide=False, TWs={1}, Kinds={"msg", "prefix"}, BarWs=set(), NarrowTWs=set(), Sty="", Wide2=False), "bfs")]
     res = props.generic_check(pid, tier, seed, gens, "field", "Trace_Field",
                               "every content of up to MaxLen cells over {a, e-acute, CJK, SGR} x width x alignment x truncation rendered as [{msg:<al><W>[!]}] (and [{prefix:...}]) and as "
                               "pre{wide_msg:<al>}suf on terminal widths TWs with literals of 1- and 2-column glyphs, plus widths 255/256/65535 with short content; "
